@@ -187,6 +187,12 @@ func main() {
 			errw.Flush()
 		}
 		o := runScenario(sc, r, nil)
+		if !zsimrt.Instrumented {
+			// degraded mode: the Go scheduler picks the interleaving; repeat the scenario a few times
+			for rep := 0; rep < 7 && o.Viol == nil; rep++ {
+				o = runScenario(sc, r, nil)
+			}
+		}
 		if raceEnabled {
 			fmt.Fprintf(errw, "@@END %d\n", run)
 			errw.Flush()
@@ -283,7 +289,29 @@ func account(sum *summary, o *Outcome, sigs map[uint64]struct{}, sigFile *bufio.
 	}
 	// non-trivial: at least one preemption inside an operation whose argument was
 	// simultaneously in use by another task that was itself inside an operation
-	if o.Stats.Contended > 0 {
+	nontrivial := o.Stats.Contended > 0
+	if !zsimrt.Instrumented {
+		// degraded mode: no preemption data; count scenarios in which at least two tasks
+		// operate on the same shared expression, identified by their seed
+		users := map[int]map[int]bool{}
+		for t, ops := range sc.Tasks {
+			for i := range ops {
+				if ops[i].Shared >= 0 {
+					if users[ops[i].Shared] == nil {
+						users[ops[i].Shared] = map[int]bool{}
+					}
+					users[ops[i].Shared][t] = true
+				}
+			}
+		}
+		for _, u := range users {
+			if len(u) >= 2 {
+				nontrivial = true
+			}
+		}
+		o.Stats.Sig = sc.Seed
+	}
+	if nontrivial {
 		sum.NontrivRuns++
 		if _, dup := sigs[o.Stats.Sig]; !dup {
 			sigs[o.Stats.Sig] = struct{}{}
